@@ -39,7 +39,9 @@ RULE = ('fault-position sweep over usage scripts of the two real transports: ser
         'sendall / recv_into (exception, EOF, refusal, hang, write stalled after half a frame, slow connect that fails or succeeds); '
         'peers that accept writes slowly (half of the buffer at once, the rest 1-14 ticks later) so that deadlines expire inside a '
         'partially written frame; serial second incarnations (Close() or a failure, re-Open, then failures there); failure '
-        'callbacks that retry on the same transport or Close() it; quick: seeded sample, thorough: '
+        'callbacks that retry on the same transport or Close() it; mux requests handed over between the start of Open() and its '
+        'completion, for every way the open can end (slow refused / successful connect, EOF / error before, inside and after the '
+        'first Rping, failing ping write, silent peer, peer hanging up or resetting, owner Close()); quick: seeded sample, thorough: '
         'seeded sample + exhaustive grid (every I/O operation index of the base scripts x every fault kind x in-flight set). '
         'non-trivial = a connection failure or time-out happened; distinct by canonical JSON of (case, observation)')
 TRUSTED = ['simulation world harness/vworld.py (virtual clock, fake gsocket) and harness/c08_drv.py (fake socket with hang / slow '
@@ -49,7 +51,8 @@ TRUSTED = ['simulation world harness/vworld.py (virtual clock, fake gsocket) and
            'mapping of collaborator calls to model labels in to_coq() of harness/props/c08.py']
 ASSUMPTIONS = ['gevent greenlets only switch at blocking calls; a greenlet made runnable by AsyncResult.set / Event.set runs before '
                'the next I/O event or timer is processed (gevent drains its callback queue before polling)',
-               'owner contract (watermark pool / resurrector): requests are issued only after Open() completed, a serial sink is '
+               'owner contract (watermark pool / resurrector): serial requests are issued only after Open() completed (mux requests '
+               'may be handed over while Open() is in progress: the caller blocks on the open result - modelled and swept), a serial sink is '
                'not re-opened while it carries a request, Close() is not called while a connect is in progress, a mux sink is '
                'opened once (a closed MuxSocketTransportSink cannot be re-opened), call ids / sink stacks are not reused',
                'a closed or faulted serial sink may be opened again (incarnations): the monitor demands the fault signal for every '
@@ -194,8 +197,30 @@ def _gen_mux(r, idx):
   if r.random() < 0.05:
     ops.append(['req', 80, None, 1])
   ops.append(['open'])
-  ops.append(['adv', r.choice([0, 4, 4])])
   c = 0
+  early = r.random() < 0.3
+  if early:
+    # requests handed over while Open() is still in progress (slow connect, opening ping unanswered / cut short)
+    how = r.choice(['delay', 'delay', 'slowfail', 'slowok', 'silent', 'hangup'])
+    if how == 'delay':
+      sv['connect_delay'] = r.choice([2, 4])
+    elif how in ('silent', 'hangup'):
+      sv['ping'] = False
+      sv['connect_delay'] = r.choice([0, 2])
+    for _ in range(r.choice([1, 1, 2, 3])):
+      c += 1
+      ops.append(['req', c, None, 1, 1 if r.random() < 0.3 else 0, r.choice(ONFAIL)])
+      if r.random() < 0.3:
+        ops.append(['adv', 1])
+    if how == 'hangup':
+      ops.append(['adv', r.choice([1, 3])])
+      ops.append(['peer', r.choice(['close', 'reset'])])
+    elif r.random() < 0.1:
+      ops.append(['close'])
+    ops.append(['adv', r.choice([2, 6, 6 * TPS])])
+  else:
+    how = None
+  ops.append(['adv', r.choice([0, 4, 4])])
   for _ in range(r.choice([1, 1, 2, 3])):
     burst = r.choice([0, 1, 2, 3, 4])
     issued = []
@@ -232,8 +257,14 @@ def _gen_mux(r, idx):
       faults.append({'op': op, 'nth': 1, 'what': r.choice(CONNECT_FAULTS[:5])})
     elif op == 'send':
       faults.append({'op': op, 'nth': r.choice([1, 2, 3, 4, 5, 6, 8]), 'what': r.choice(SEND_FAULTS)})
+    elif early and r.random() < 0.5:
+      faults.append({'op': op, 'nth': r.choice([1, 2, 3]), 'what': r.choice(RECV_FAULTS)})
     else:
       faults.append({'op': op, 'nth': r.choice([1, 2, 3, 4, 5, 6, 7, 8, 9, 10, 12, 14]), 'what': r.choice(RECV_FAULTS)})
+  if how == 'slowfail':
+    faults = [f for f in faults if f['op'] != 'connect'] + [{'op': 'connect', 'nth': 1, 'what': ['slow', r.choice([2, 5]), 0]}]
+  elif how == 'slowok':
+    faults = [f for f in faults if f['op'] != 'connect'] + [{'op': 'connect', 'nth': 1, 'what': ['slow', r.choice([2, 5]), 1]}]
   ops.append(['adv', 8])
   ops.append(['req', 90, None, 1])
   ops.append(['adv', 8])
@@ -319,6 +350,33 @@ def _grid_mux():
                 o.append(1 if len(o) == 3 else 0)
               o.append(onfail)
           bases.append(o2)
+  # requests handed over between the start of Open() and its completion, for every way the open can end
+  kinds = [('refused-slow', {'ping': True}, [{'op': 'connect', 'nth': 1, 'what': ['slow', 3, 0]}], []),
+           ('ok-slow', {'ping': True}, [{'op': 'connect', 'nth': 1, 'what': ['slow', 3, 1]}], []),
+           ('ok-delay', {'ping': True, 'connect_delay': 3}, [], []),
+           ('eof-before-rping', {'ping': True, 'connect_delay': 2}, [{'op': 'recv', 'nth': 1, 'what': 'eof'}], []),
+           ('exc-in-rping', {'ping': True, 'connect_delay': 2}, [{'op': 'recv', 'nth': 2, 'what': 'exc'}], []),
+           ('eof-after-rping', {'ping': True, 'connect_delay': 2}, [{'op': 'recv', 'nth': 3, 'what': 'eof'}], []),
+           ('ping-write-fails', {'ping': True, 'connect_delay': 2}, [{'op': 'send', 'nth': 1, 'what': 'exc'}], []),
+           ('silent-peer', {'ping': False}, [], []),
+           ('peer-hangs-up', {'ping': False}, [], [['adv', 2], ['peer', 'close']]),
+           ('peer-resets', {'ping': False, 'connect_delay': 1}, [], [['adv', 3], ['peer', 'reset']]),
+           ('owner-closes', {'ping': False}, [], [['adv', 2], ['close']])]
+  for name, sv, faults, extra in kinds:
+    for n in (1, 2, 3):
+      for onfail in (None, 'retry', 'close'):
+        for gap in (0, 1):
+          ops = [['open']]
+          for c in range(1, n + 1):
+            ops.append(['req', c, None, 1, 1 if c == 2 else 0, onfail if c == 1 else None])
+            if gap:
+              ops.append(['adv', 1])
+          ops += [list(o) for o in extra]
+          ops += [['adv', 6 * TPS], ['req', 50, None, 1], ['adv', 4], ['req', 90, None, 1], ['adv', 4]]
+          d = dict(sv)
+          d['default'] = {'act': 'reply', 'delay': 1}
+          out.append({'kind': 'mux', 'tie': 'fifo', 'server': d, 'faults': [dict(f) for f in faults], 'ops': ops, 'seed': 0,
+                      'draws': [30, 40], 'grid': True, 'open_ends': name})
   for ops in bases:
     for plan in ({'act': 'reply', 'delay': 2}, {'act': 'drop'}):
       for ping in (True, 1):
@@ -382,6 +440,7 @@ def monitor(case, obs):
   # ---- bookkeeping: calls, posts, acceptance
   req_pos = {}
   req_dl = {}
+  blocked = set()
   posts = collections.defaultdict(list)       # c -> [(pos, slice, kind)]
   rejected = set()
   expired_at = {}
@@ -391,13 +450,15 @@ def monitor(case, obs):
       cur = e[2]
       req_pos[cur] = (p, k)
       req_dl[cur] = e[3] if len(e) > 3 else None
+      if len(e) > 4 and e[4] == 'blocked':
+        blocked.add(cur)           # handed over while Open() was in progress: in flight from now on
     elif e[0] == 'api' and e[1] == 'req-ret':
       cur = None
     elif e[0] == 'api' and e[1] == 'expire':
       expired_at[e[2]] = p
     elif e[0] == 'post':
       posts[e[1]].append((p, k, e[2]))
-      if e[2] in ('conc', 'notopen'):
+      if e[2] in ('conc', 'notopen') and e[1] not in blocked:
         rejected.add(e[1])
       if e[2] == 'value':
         v.append(('unexpected-message', 'call %s got a non-error message object from the transport' % e[1]))
@@ -482,7 +543,7 @@ def monitor(case, obs):
       if not got:
         v.append(('in-flight-request-not-failed', 'connection failure (%s) with call %s in flight: the call got no message (state %s)'
                   % (what, c, end['state'])))
-      elif got[0][2] not in ERR_KINDS:
+      elif got[0][2] not in ERR_KINDS and not (c in blocked and got[0][2] == 'notopen'):
         v.append(('in-flight-request-not-failed', 'connection failure (%s) with call %s in flight: it got %s' % (what, c, got[0][2])))
     later_ok = any(e[0] == 'io' and e[1] == 'connect' and e[2] == 'ok' and pp > p and kk <= k for pp, (kk, e) in enumerate(flat))
     if end['state'] != 'Closed' and not later_ok:
@@ -626,6 +687,50 @@ def monitor(case, obs):
       v.append(('open-idle-but-unusable', 'transport reported Open%s, request %s was written but the peer never received it as a '
                 'well-formed request (peer saw requests %s, malformed frames %s)'
                 % ('' if mux else ' and idle', c, [r[1] for r in obs.get('requests', [])][-4:], (obs.get('malformed') or [])[-2:])))
+  if mux and sl and sl[-1]['state'] == 'Closed' and not closes and failures:
+    # the connection failed and the transport ended up closed: nobody who handed it a request may be left without an answer
+    for c, (rp, _k) in req_pos.items():
+      if c in rejected or c in expired_at or posts.get(c):
+        continue
+      if any(x[0] == 'api' and x[1] == 'req-ret' and x[2] == c for _kk, x in flat) or c in blocked:
+        v.append(('in-flight-request-not-failed', 'the transport is closed after a connection failure (%s) but request %s%s never '
+                  'got a message' % (failures[0][2], c, ' (handed over while Open() was in progress)' if c in blocked else '')))
+  if mux:
+    # a reply frame the transport read for tag t completes the request holding t (unless the connection fails / is
+    # closed before the frame is processed: then that request gets the shutdown's error instead)
+    holder = {}
+    curq = None
+    body = False
+    for p, (k, e) in enumerate(flat):
+      if e[0] == 'api' and e[1] in ('req', 'req-resume'):
+        curq = None if (e[1] == 'req' and len(e) > 4 and e[4] == 'blocked') else e[2]
+      elif e[0] == 'api' and e[1] == 'req-ret':
+        curq = None
+      elif e[0] == 'q' and e[1] == 'put' and e[2] == 2:
+        cq = curq
+        if cq is None:
+          cq = next((x[2] for _kk, x in flat[p + 1:] if x[0] == 'api' and x[1] == 'req-ret'), None)
+        if cq is not None:
+          holder[e[3]] = cq
+      elif e[0] == 'w' and e[1] == 'open-end' and e[2] == 'ok':
+        body = False
+      elif e[0] == 'w' and e[1] == 'read-end' and e[2] == 'ok':
+        if body and len(e) > 3 and len(e[3]) >= 8:
+          ty, tag = int(e[3][0:2], 16), int(e[3][2:8], 16)
+          c = holder.get(tag)
+          if ty in (0xfe, 0x80) and tag >= 2 and c is not None and c not in expired_at and c not in rejected \
+              and not any(pp < p for (pp, _kk, _kd) in posts.get(c, [])):
+            later = [x for x in posts.get(c, []) if x[0] > p and x[1] == k]
+            broke = any(kk == k and pp > p and ((x[0] == 'io' and len(x) > 2 and (x[1], x[2]) in IO_FAIL) or
+                                                (x[0] == 'w' and x[1] == 'close') or (x[0] == 'arwait' and x[1] is False))
+                        for pp, (kk, x) in enumerate(flat) if kk == k)
+            if not later and not broke:
+              v.append(('reply-not-delivered', 'the transport read a reply frame for tag %d held by request %s but the request '
+                        'was not completed' % (tag, c)))
+            elif later and later[0][2] != 'reply' and not broke:
+              v.append(('reply-not-delivered', 'the transport read a reply frame for tag %d held by request %s, which got %s'
+                        % (tag, c, later[0][2])))
+        body = not body
   if mux:
     # a request on a closed transport is refused with exactly one message
     for c, (rp, k) in req_pos.items():
@@ -800,6 +905,9 @@ def mux_labels(obs):
           labels.append('Mux.MOpen')
         elif e[1] == 'req':
           labels.append('(Mux.MReq %s)' % C.zlit(e[2]))
+          cur_req = None if (len(e) > 4 and e[4] == 'blocked') else e[2]      # a blocked caller does nothing yet
+        elif e[1] == 'req-resume':
+          labels.append('(Mux.MResumeReq %s)' % C.zlit(e[2]))
           cur_req = e[2]
         elif e[1] == 'req-ret':
           cur_req = None
@@ -809,6 +917,9 @@ def mux_labels(obs):
           labels.append('Mux.MClose')
       elif t == 'q':
         if e[1] == 'put':
+          if e[2] == 2 and cur_req is None:
+            # a request handed over during Open() that did not have to wait after all: its 'req-ret' follows
+            cur_req = next((x[2] for x in ev[i + 1:] if x[0] == 'api' and x[1] == 'req-ret'), None)
           if e[2] == 2 and cur_req is not None:
             holder[e[3]] = cur_req
             fifo.append('(Mux.IFrame %s)' % C.zlit(cur_req))
